@@ -92,6 +92,13 @@ __CPROVER_ensures(WV_KEY16_EQ(this->_base.iv, iv) && WV_KEY16_EQ(this->_base.ini
 /* factory: the class for (direction, mode number), built from the factory's key and IV pointers; NULL for unknown modes */
 #define WV_TAG_FOR(isenc, type) ((type) == 0 ? ((isenc) ? WV_TAG_AesECB_Enc : WV_TAG_AesECB_Dec) : (type) == 1 ? ((isenc) ? WV_TAG_AesCBC_Enc : WV_TAG_AesCBC_Dec) : \
   (type) == 2 ? WV_TAG_AesCTR : (type) == 3 ? ((isenc) ? WV_TAG_AesCFB_Enc : WV_TAG_AesCFB_Dec) : WV_TAG_AesOFB)
+/* callers that do not look at the key schedule compile with WV_FACTORY_LIGHT: the same contract without the (large) schedule
+   invariant in its postcondition -- a weaker assumption, proved in its strong form by the mode_factory obligation */
+#ifdef WV_FACTORY_LIGHT
+#define WV_FACTORY_KS(k) 1
+#else
+#define WV_FACTORY_KS(k) WV_KS_OK(k)
+#endif
 Aesmode *AesFactory__createCryMaster(AesFactory *this, bool isenc, u8_t type)
 __CPROVER_requires(__CPROVER_is_fresh(this, sizeof(*this)) && __CPROVER_is_fresh(this->key, 16) && __CPROVER_is_fresh(this->iv, 16))
 __CPROVER_assigns()
@@ -99,6 +106,6 @@ __CPROVER_ensures(type > 4 ==> __CPROVER_return_value == NULL)
 __CPROVER_ensures(type <= 4 ==> (__CPROVER_is_fresh(__CPROVER_return_value, sizeof(AesEncrypt)) &&
   __CPROVER_return_value->_wv_tag == WV_TAG_FOR(isenc, type) &&
   WV_KEY16_EQ(__CPROVER_return_value->iv, this->iv) && WV_KEY16_EQ(__CPROVER_return_value->initiv, this->iv) &&
-  WV_KS_OK(&((AesEncrypt *)__CPROVER_return_value)->crypt._base.key) &&
+  WV_FACTORY_KS(&((AesEncrypt *)__CPROVER_return_value)->crypt._base.key) &&
   WV_KEY16_EQ(((AesEncrypt *)__CPROVER_return_value)->crypt._base.key.init_key, this->key)));
 #endif
